@@ -663,4 +663,8 @@ class DiffProperty:
             print(l)
         log("[%s] %s tier: %d cases, %d corr diffs, %d spec diffs, %d violations, %.1fs" % (
             self.pid, tier, len(cases), len(corr_fail), len(spec_fail), viol, wall))
+        # the work directory (case files and raw outputs: gigabytes for a thorough tier) is not needed afterwards:
+        # replays are under out/replay, evidence under evidence/; VERIF_KEEP=1 keeps it for debugging
+        if not os.environ.get("VERIF_KEEP"):
+            shutil.rmtree(wd, ignore_errors=True)
         return 1 if viol else 0
